@@ -78,6 +78,48 @@ def sender_scenario(rng, tier, lengths=None, gen_prob=0.2):
     return {'ops': ops}
 
 
+def rate_limited_sender(rng, tier):
+    """the same reference segmentation must come out when the rate limiter parks frames (Single / First Frames held in standby,
+    Consecutive Frames withheld): one frame per limiter window"""
+    mode = rng.randrange(7)
+    a, _ = gen.rand_addr_pair(rng, mode=mode, asym_prob=0.1)
+    params = gen.rand_params(rng, simple=True)
+    params.pop('blocksize', None)
+    params.pop('stmin', None)
+    txdl = params.get('tx_data_length', 8)
+    w = rng.choice([0.05, 0.1])
+    params['rate_limit_enable'] = True
+    params['rate_limit_window_size'] = w
+    params['rate_limit_max_bitrate'] = int(txdl * 8 / w) + rng.choice([1, 1, 8 * txdl])
+    wns = int(w * 10**9) + 6000000
+    pre = gen.prefix_len(a, 'tx')
+    c = max(1, txdl - 1 - pre)
+    ops = [{'op': 'layer', 'i': 0, 'addr': a, 'params': params}]
+    rid = 0
+    for _ in range(rng.choice([2, 3])):
+        rid += 1
+        n = rng.choice([1, 3, 7, c + 3, 2 * c + 5, 3 * c + 1])
+        payload = gen.rand_payload(rng, n)
+        ops.append({'op': 'send', 'i': 0, 'id': rid, 'data': payload})
+        nframes = n // c + 2
+        bs = rng.choice([0, 0, 1, 2])
+        fid, ext, data = fc_frame(a, bs, 0)
+        for _k in range(nframes + 3):
+            ops.append({'op': 'process', 'i': 0})
+            if rng.random() < 0.7:
+                ops.append({'op': 'frame', 'i': 0, 'id': fid, 'ext': ext, 'data': data})
+                ops.append({'op': 'process', 'i': 0})
+            ops.append({'op': 'tick', 'dt': wns})
+        for _k in range(nframes + 3):       # make sure the transfer ends: a ContinueToSend and a full window per round
+            ops.append({'op': 'frame', 'i': 0, 'id': fid, 'ext': ext, 'data': data})
+            ops.append({'op': 'process', 'i': 0})
+            ops.append({'op': 'tick', 'dt': wns})
+            ops.append({'op': 'process', 'i': 0})
+        ops.append({'op': 'specseg', 'txdl': txdl, 'minlen': params.get('tx_data_min_length'),
+                    'padding': params.get('tx_padding'), 'prefix': ref.tx_prefix(ref.half(a, 'tx')), 'data': payload})
+    return {'ops': ops}
+
+
 def tx_cfg(cfg):
     p = cfg['params']
     return dict(txdl=p.get('tx_data_length', 8), minlen=p.get('tx_data_min_length'), padding=p.get('tx_padding'))
@@ -196,6 +238,8 @@ class C02(PropBase):
     thorough_per_shard = 4000
 
     def scenario(self, rng, tier):
+        if rng.random() < 0.15:
+            return rate_limited_sender(rng, tier)
         return sender_scenario(rng, tier)
 
     def project(self, op_line, out_line):
